@@ -12,6 +12,7 @@ pub fn run_case(case: &Case) -> Report {
     match case.kind.as_str() {
         "det" => det(case, &mut rep),
         "total" => total(case, &mut rep),
+        "scaling" => scaling(case, &mut rep),
         "refine" | "defplace" => crate::c12::judge(case, &mut rep),
         k if k.starts_with("diag") => crate::c14::judge(case, &mut rep),
         other => {
@@ -165,6 +166,56 @@ fn total(case: &Case, rep: &mut Report) {
                     }
                 }
             }
+        }
+    }
+}
+
+/// C08, time budget in logical time: the allocation events a compile needs beyond the n = 0
+/// member of its family may grow by at most 8x when n doubles (cubic), never exponentially
+fn scaling(case: &Case, rep: &mut Report) {
+    let ex = &case.execs[0];
+    let res = run_exec(ex, &case.fss);
+    rep.history_digests.insert(res.history_digest);
+    let rs = &res.results[0];
+    let mut allocs: Vec<u64> = Vec::new();
+    for (k, r) in rs.iter().enumerate() {
+        rep.absorb_task(r);
+        let scenario = ex.threads[0].tasks[k].input_digest(&case.fss);
+        rep.scenario_digests.insert(scenario);
+        if k > 0 {
+            rep.nontrivial.insert(scenario);
+        }
+        match r.kind {
+            OutcomeKind::Panic => {
+                rep.findings.push(Finding {
+                    property: "C08".into(),
+                    class: "panic".into(),
+                    fingerprint: r.panic_site.clone(),
+                    detail: format!("{} (task {k}): {}", case.label, r.text),
+                });
+                return;
+            }
+            OutcomeKind::Err => {
+                rep.count("scaling_not_judged_family_rejected", 1);
+                return;
+            }
+            OutcomeKind::Ok => allocs.push(r.allocs),
+        }
+    }
+    rep.count("scaling_families_judged", 1);
+    let d: Vec<u64> = allocs.iter().map(|a| a.saturating_sub(allocs[0])).collect();
+    for k in 2..d.len() {
+        if d[k] > 8 * d[k - 1] + 64 {
+            rep.findings.push(Finding {
+                property: "C08".into(),
+                class: "super-polynomial-time".into(),
+                fingerprint: case.label.split('@').next().unwrap_or("").to_string(),
+                detail: format!(
+                    "{}: allocation events beyond n=0 are {:?}: doubling n multiplies the work by more than 8",
+                    case.label, d
+                ),
+            });
+            return;
         }
     }
 }
